@@ -56,14 +56,31 @@ class Setup(object):
         return rec
 
     def entail(self, goal, extra=()):
-        """cons, pos, extra |= goal ; returns verdict, model"""
-        return self.D.decide(self.cons + self.pos + list(extra) + [z3.Not(goal)])
+        """cons, pos, extra |= goal ; returns verdict, model.  Every XCHECK_EVERY-th obligation is re-decided by cvc5 (second
+        opinion through SMT-LIB text); a definite disagreement is a harness error."""
+        assertions = self.cons + self.pos + list(extra) + [z3.Not(goal)]
+        v, m = self.D.decide(assertions)
+        self.n_ob = getattr(self, 'n_ob', 0) + 1
+        if v in ('sat', 'unsat') and self.n_ob % XCHECK_EVERY[0] == 1:
+            from vf.eqsmt import cvc5_check
+            t0 = time.time()
+            c = cvc5_check(assertions, 5000)
+            self.xchecked = getattr(self, 'xchecked', 0) + 1
+            self.xcheck_s = getattr(self, 'xcheck_s', 0.0) + time.time() - t0
+            if c in ('sat', 'unsat') and c != v:
+                self.xdisagree = getattr(self, 'xdisagree', []) + ['z3 %s vs cvc5 %s on %s' % (v, c, str(goal)[:200])]
+        return v, m
 
     def finish(self, rec):
+        rec['cvc5_crosschecked'] = getattr(self, 'xchecked', 0)
+        rec['cvc5_disagreements'] = getattr(self, 'xdisagree', [])
         rec['rungs'] = self.D.rungs
         rec['solver_s'] = self.D.solver_s
         rec['queries'] = self.D.queries
         return rec
+
+
+XCHECK_EVERY = [25]
 
 
 def absorb(chk, res, on_ob):
@@ -87,6 +104,9 @@ def absorb(chk, res, on_ob):
             chk.count('rung:' + k, v)
         chk.solver_s += rec.get('solver_s', 0.0)
         chk.queries += rec.get('queries', 0)
+        chk.count('cvc5_crosschecked', rec.get('cvc5_crosschecked', 0))
+        for d in rec.get('cvc5_disagreements', []):
+            chk.harness_errors.append('solver disagreement in %s: %s' % (rec['plan'], d))
 
 
 EXACT_REPLAY_HEAD = '''
